@@ -97,6 +97,47 @@ func c12EvalSwitch(fd *ast.FuncDecl, arg string, argIsRecv bool) (c12Ret, error)
 	return c12Ret{}, fmt.Errorf("%s: no return for %s", fd.Name.Name, arg)
 }
 
+// c12Nested lists the statements of a function body with their nesting (indent = depth).
+func c12Nested(fset *token.FileSet, fd *ast.FuncDecl) []string {
+	var out []string
+	if fd == nil || fd.Body == nil {
+		return out
+	}
+	var walk func(stmts []ast.Stmt, depth string)
+	walk = func(stmts []ast.Stmt, depth string) {
+		for _, st := range stmts {
+			switch x := st.(type) {
+			case *ast.RangeStmt:
+				kv := ""
+				if x.Key != nil {
+					kv = c12Src(fset, x.Key)
+				}
+				if x.Value != nil {
+					kv += ", " + c12Src(fset, x.Value)
+				}
+				out = append(out, depth+"range "+kv+" := "+c12Src(fset, x.X))
+				walk(x.Body.List, depth+"  ")
+			case *ast.IfStmt:
+				out = append(out, depth+"if "+c12Src(fset, x.Cond))
+				walk(x.Body.List, depth+"  ")
+				if x.Else != nil {
+					out = append(out, depth+"else")
+					switch e := x.Else.(type) {
+					case *ast.BlockStmt:
+						walk(e.List, depth+"  ")
+					case *ast.IfStmt:
+						walk([]ast.Stmt{e}, depth+"  ")
+					}
+				}
+			default:
+				out = append(out, depth+c12Src(fset, st))
+			}
+		}
+	}
+	walk(fd.Body.List, "")
+	return out
+}
+
 // c12Supported evaluates the nested switch of Type.IsFuncSupported for one (type, function).
 func c12Supported(fd *ast.FuncDecl, typeName, funcName string) (bool, error) {
 	if fd == nil || fd.Body == nil {
@@ -559,6 +600,14 @@ func init() {
 			walk(less.Body.List, "")
 		}
 		fmt.Fprintf(&sb, "/-- topNHeap.Less, statement by statement (indent = nesting) -/\ndef topnLessSteps : List String := %s\n", LeanStrList(lessSteps))
+
+		// ---------------- flow/node_choose.go: who executes, who only receives
+		fsetNC, nc, err := ParseFile(repo, "flow/node_choose.go")
+		if err != nil {
+			return "", err
+		}
+		fmt.Fprintf(&sb, "/-- flow.BuildPhysicalPlan, statement by statement (indent = nesting) -/\ndef buildPlanSteps : List String := %s\n",
+			LeanStrList(c12Nested(fsetNC, FindFunc(nc, "", "BuildPhysicalPlan"))))
 
 		// ---------------- leaf_reduce_context.go: receiver index
 		fsetLR, lr, err := ParseFile(repo, "query/context/leaf_reduce_context.go")
